@@ -26,6 +26,9 @@ type CaseJ struct {
 	Reps  []map[string]any      `json:"reps"`
 	Plan  map[string]rt.Outcome `json:"plan"`
 	Iso   *IsoRef               `json:"iso,omitempty"`
+	// microseconds the error presenter sleeps (see rt.Case.PresentDelay); the model has no notion of it: the result
+	// must not depend on it
+	PresentDelay int `json:"presentDelay,omitempty"`
 }
 
 type gen struct {
@@ -242,9 +245,24 @@ func (g *gen) fault(n int) rt.Outcome {
 	}
 }
 
-var allTypes = []string{"User", "Product", "Parcel", "Batch", "Crate", "Bin", "Ext"}
-var singleTypes = []string{"User", "Product", "Parcel"}
-var multiTypes = []string{"Batch", "Crate", "Bin"}
+// the entity types of the probe schema, by dispatch mode (filled from the configuration by setTypes): every
+// entity type the schema declares takes part in every generator - which of them HAVE a resolver is a fact of
+// the schema (key-only entities, `resolvable:`, @external), not something a generator may assume
+var allTypes, singleTypes, multiTypes []string
+
+func setTypes(cfg ConfigJ) {
+	allTypes, singleTypes, multiTypes = nil, nil, nil
+	for _, e := range cfg.Entities {
+		allTypes = append(allTypes, e.Name)
+		switch {
+		case len(e.Resolvers) == 0:
+		case e.Multi:
+			multiTypes = append(multiTypes, e.Name)
+		default:
+			singleTypes = append(singleTypes, e.Name)
+		}
+	}
+}
 
 type built struct {
 	reps    []map[string]any
@@ -304,6 +322,7 @@ func classList(m map[string]bool, extra ...string) []string {
 
 func printCases(v Variant, probes string, seed uint64, tier string) {
 	cfg := buildConfig(v, probes)
+	setTypes(cfg)
 	g := &gen{r: rng.New(seed ^ 0xC20C20), cfg: cfg}
 	enc := json.NewEncoder(os.Stdout)
 	enc.SetEscapeHTML(false)
@@ -585,6 +604,33 @@ func printCases(v Variant, probes string, seed uint64, tier string) {
 			}
 		}
 		flush()
+	}
+
+	// 8. slow error presenter: the goroutine that resolved a failing representation is still inside ec.Error when
+	//    every other one has finished - the response must wait for it (null WITH its error), whatever fails:
+	//    the user's resolver (error / panic), the key selection, the key's unmarshalling, a missing __typename
+	for i := 0; i < 8*scale; i++ {
+		n := 2 + g.r.Below(5)
+		types := singleTypes
+		if i%4 == 3 {
+			types = allTypes
+		}
+		b := g.list(n, types, 0, true)
+		plan := map[string]rt.Outcome{}
+		classes := []string{"slow-error-presenter"}
+		nf := 1 + g.r.Below(2)
+		for k := 0; k < nf; k++ {
+			j := g.r.Below(n)
+			e, _ := g.entityOf(b.reps[j])
+			if i%2 == 0 && len(b.markers[j]) > 0 {
+				plan[b.markers[j][0]] = rt.Outcome{Kind: []string{"error", "panic"}[g.r.Below(2)], Msg: "F" + strconv.Itoa(j)}
+				classes = append(classes, "user-fault")
+			} else if c := g.mutate(e, b.reps[j]); c != "" {
+				b.classes[c] = true
+			}
+		}
+		emit(CaseJ{ID: nid("slowerr"), Class: classList(b.classes, classes...), Reps: b.reps, Plan: plan,
+			PresentDelay: 1500 + g.r.Below(2500)})
 	}
 
 	// 6. malformed stream: heavy damage everywhere
